@@ -122,4 +122,25 @@ def c05(ctx):
                   ["Hayson.tla transcribes docHaystack/Json; JSON tokenising/printing (harness/src/jtree.rs) is trusted"])
 
 
-CHECKS = {"C01": c01, "C02": c02, "C04": c04, "C05": c05}
+def c06(ctx):
+    vecs, out = tlc_mc(ctx, "MC_Time", consts={"EmitVectors": "TRUE", "Full": "FALSE" if ctx.quick else "TRUE"},
+                       invariants=["RfcRoundTrip", "RfcNoZRoundTrip", "ZincRoundTrip", "Emit"], workers=8, timeout=3000)
+    ev1 = hs_run(ctx, vecs, "gen")
+    ctx.bads += tlc_trace(ctx, "Trace_Time", ev1, shards=12)
+    note_events(ctx, ev1, key=lambda e: e.get("text"))
+    ev2 = hs_rec(ctx, "time", 0, ["--per-zone", "8" if ctx.quick else "0"])
+    ctx.bads += tlc_trace(ctx, "Trace_Time", ev2, shards=14)
+    note_events(ctx, ev2, key=lambda e: [e.get("tzid"), e.get("unix"), e.get("ns")])
+    return finish(ctx,
+                  "GEN: MC_Time enumerates RFC 3339 texts for all 105 offsets -12:00..+14:00 (15 min steps) x corner instants x 0..9 "
+                  "fraction digits; each is given to parse_from_rfc3339 / FromStr / make_datetime_from_iso and TLC recomputes the "
+                  "instant from the text. REC: every zone of the bundled tz database with an unambiguous city name x (%s) of its "
+                  "1980-2060 offset transitions x {t-1s, t, t+1s, t-30min, t+30min} + 2 mid-period instants, through the instant+zone "
+                  "constructor, parse_from_rfc3339_with_timezone (text at a random offset), Zinc and Hayson round trips. distinct = "
+                  "distinct texts / (zone, instant) pairs" % ("8 per zone" if ctx.quick else "all"),
+                  ["chrono-tz's offset_from_utc_datetime is the tz database oracle (the property is about libhaystack keeping instant "
+                   "and zone, not about tzdata)", "zone unambiguity decided by exact comparison of offset functions 1980-2060"],
+                  exhaustive=not ctx.quick)
+
+
+CHECKS = {"C06": c06, "C01": c01, "C02": c02, "C04": c04, "C05": c05}
